@@ -124,8 +124,13 @@ def cmdPeer : Cmd → Peer
   | .dialPeer _ _ p => p
   | .dialAddress _ _ a => (lastPeer a).getD 0
 
-/-- The failure notification of a failed `DialPeer` command. -/
-def failEv (d : Done) : PEv := ⟨.df, cmdPeer d.cmd, 0, [], .cmd d.cmd.k⟩
+def cmdAddrs : Cmd → List Multiaddr
+  | .dialPeer _ _ _ => []
+  | .dialAddress _ _ a => [a]
+
+/-- The failure notification of a failed queued dial: `DialFailure{peer, []}` for `DialPeer`,
+`DialFailure{peer, [address]}` for `DialAddress`. -/
+def failEv (d : Done) : PEv := ⟨.df, cmdPeer d.cmd, 0, cmdAddrs d.cmd, .cmd d.cmd.k⟩
 
 theorem dial_events (s : Mgr) (p : Peer) (ch : List Multiaddr) : (dial s p ch).2.events = [] := by
   unfold dial
@@ -205,10 +210,14 @@ structure PInv (ps : PS) : Prop where
     (ps.done.filter (fun d => d.cmd.k == k && d.fate == .failed)).map failEv
   /-- a command that started an attempt has it in the ledger -/
   started : ∀ d ∈ ps.done, ∀ c, d.fate = .started c → ∃ a ∈ ps.g.ledger, a.conn = c ∧ a.peer = cmdPeer d.cmd
+  /-- the handle only queues addresses that end in `/p2p` -/
+  cmdsPeer : ∀ k j a, Cmd.dialAddress k j a ∈ ps.cmds → (lastPeer a).isSome = true
+  /-- so no failed command goes unreported -/
+  noSilent : ∀ d ∈ ps.done, d.fate ≠ .silent
 
 theorem pinv_init (cfg : LimitsCfg) (cap : Nat) (order : List Nat) (h : order.Nodup) :
     PInv (PS.init cfg cap order) := by
-  refine ⟨Reach.init cfg, h, ?_, ?_, ?_, ?_, ?_, ?_⟩ <;> simp [PS.init, pend, preportsOf, outcome, G.init]
+  refine ⟨Reach.init cfg, h, ?_, ?_, ?_, ?_, ?_, ?_, ?_, ?_⟩ <;> simp [PS.init, pend, preportsOf, outcome, G.init]
 
 theorem filter_src_conn (l : List PEv) (h : ∀ e ∈ l, ∃ c, e.src = .conn c) (k : Nat) :
     l.filter (fun e => e.src == .cmd k) = [] := by
@@ -237,10 +246,13 @@ theorem pinv_deliver' (ps : PS) (hidle : ps.todo = []) (hnd : ps.order.Nodup)
     (hrep : ∀ a, preportsOf a (ps.bcast ++ evs) = outcome g' a)
     (hfail : ∀ k, (ps.bcast ++ evs).filter (fun e => e.src == .cmd k) =
       (ps.done.filter (fun d => d.cmd.k == k && d.fate == .failed)).map failEv)
-    (hstart : ∀ d ∈ ps.done, ∀ c, d.fate = .started c → ∃ a ∈ g'.ledger, a.conn = c ∧ a.peer = cmdPeer d.cmd) :
+    (hstart : ∀ d ∈ ps.done, ∀ c, d.fate = .started c → ∃ a ∈ g'.ledger, a.conn = c ∧ a.peer = cmdPeer d.cmd)
+    (hcp : ∀ k j a, Cmd.dialAddress k j a ∈ ps.cmds → (lastPeer a).isSome = true)
+    (hns : ∀ d ∈ ps.done, d.fate ≠ .silent) :
     PInv (deliver ps g' evs held).1 := by
   obtain ⟨f1, f2, f3, f4, f5, f6, f7, f8⟩ := deliver_frame ps g' evs held
-  refine ⟨by rw [f1]; exact hg', by rw [f2]; exact hnd, ?_, ?_, ?_, ?_, ?_, ?_⟩
+  refine ⟨by rw [f1]; exact hg', by rw [f2]; exact hnd, ?_, ?_, ?_, ?_, ?_, ?_, by rw [f4]; exact hcp,
+    by rw [f6]; exact hns⟩
   · intro j hj
     rw [f2] at hj
     rw [deliver_tied ps g' evs held hidle j, pend_sendsOf ps.order hnd j hj, f8, ← htied j hj, hidle]
@@ -261,7 +273,7 @@ theorem pinv_deliver {ps : PS} (h : PInv ps) (hidle : ps.todo = []) (g' : G) (hg
     (hsrc : ∀ e ∈ evs, ∃ c, e.src = .conn c)
     (hled : ∀ a ∈ ps.g.ledger, ∃ a' ∈ g'.ledger, a'.conn = a.conn ∧ a'.peer = a.peer) :
     PInv (deliver ps g' evs held).1 := by
-  refine pinv_deliver' ps hidle h.nodup h.tied h.split h.acct g' hg' evs held ?_ ?_ ?_
+  refine pinv_deliver' ps hidle h.nodup h.tied h.split h.acct g' hg' evs held ?_ ?_ ?_ h.cmdsPeer h.noSilent
   · intro a; rw [preportsOf_append, h.rep, hrep]
   · intro k; rw [List.filter_append, filter_src_conn evs hsrc, List.append_nil]; exact h.failedEv k
   · intro d hd c hc
@@ -283,9 +295,15 @@ theorem pinv_base {ps : PS} (h : PInv ps) (i : In) (hal : allowed ps.g i = true)
       unfold notes
       rw [preportsOf_notes]
 
-theorem pinv_queue {ps : PS} (h : PInv ps) (c : Cmd) (hk : c.k = ps.nextReq) :
+theorem pinv_queue {ps : PS} (h : PInv ps) (c : Cmd) (hk : c.k = ps.nextReq)
+    (hp : ∀ k j a, c = .dialAddress k j a → (lastPeer a).isSome = true) :
     PInv { ps with cmds := ps.cmds ++ [c], nextReq := ps.nextReq + 1 } := by
-  refine ⟨h.reach, h.nodup, h.tied, h.rep, h.split, ?_, h.failedEv, h.started⟩
+  refine ⟨h.reach, h.nodup, h.tied, h.rep, h.split, ?_, h.failedEv, h.started, ?_, h.noSilent⟩
+  rotate_left
+  · intro k j a hm
+    rcases List.mem_append.1 hm with hm | hm
+    · exact h.cmdsPeer k j a hm
+    · exact hp k j a (by have := List.mem_singleton.1 hm; exact this.symm)
   intro k
   have := h.acct k
   show (ps.done.filter _).length + ((ps.cmds ++ [c]).filter _).length = if k < ps.nextReq + 1 then 1 else 0
@@ -306,23 +324,35 @@ theorem pinv_queue {ps : PS} (h : PInv ps) (c : Cmd) (hk : c.k = ps.nextReq) :
 theorem pinv_handleDial {ps : PS} (h : PInv ps) (j : Nat) (p : Peer) : PInv (handleDial ps j p).1 := by
   unfold handleDial
   repeat' split
-  all_goals first | exact h | exact pinv_queue h _ rfl
+  all_goals first | exact h | exact pinv_queue h _ rfl (by intro k j a hc; cases hc)
 
 theorem pinv_handleDialAddress {ps : PS} (h : PInv ps) (j : Nat) (a : Multiaddr) :
     PInv (handleDialAddress ps j a).1 := by
   unfold handleDialAddress
   split
   · exact h
-  · exact pinv_queue h _ rfl
+  · rename_i hsome
+    refine pinv_queue h _ rfl ?_
+    intro k j' a' hc
+    cases hc
+    cases hl : lastPeer a <;> simp [hl] at hsome ⊢
 
 /-- Moving the head command to `done` with a fate that sends nothing. -/
 theorem pinv_done {ps : PS} (h : PInv ps) (c : Cmd) (rest : List Cmd) (hc : ps.cmds = c :: rest) (g' : G)
     (hg' : Reach g') (hlog : g'.log = ps.g.log)
     (hled : ∀ a ∈ ps.g.ledger, ∃ a' ∈ g'.ledger, a'.conn = a.conn ∧ a'.peer = a.peer)
-    (f : Fate) (hf : f ≠ .failed)
+    (f : Fate) (hf : f ≠ .failed) (hf' : f ≠ .silent)
     (hst : ∀ x, f = .started x → ∃ a ∈ g'.ledger, a.conn = x ∧ a.peer = cmdPeer c) :
     PInv { ps with g := g', cmds := rest, done := ps.done ++ [⟨c, f⟩] } := by
-  refine ⟨hg', h.nodup, h.tied, ?_, h.split, ?_, ?_, ?_⟩
+  refine ⟨hg', h.nodup, h.tied, ?_, h.split, ?_, ?_, ?_, ?_, ?_⟩
+  rotate_right 2
+  · intro k j a hm
+    exact h.cmdsPeer k j a (by rw [hc]; exact List.mem_cons_of_mem _ hm)
+  · intro d hd
+    rcases List.mem_append.1 hd with hd | hd
+    · exact h.noSilent d hd
+    · have : d = ⟨c, f⟩ := by simpa using hd
+      subst this; exact hf'
   · intro a
     have : outcome g' a = outcome ps.g a := by rw [outcome_eq, outcome_eq, hlog]
     show preportsOf a ps.bcast = outcome g' a
@@ -342,6 +372,39 @@ theorem pinv_done {ps : PS} (h : PInv ps) (c : Cmd) (rest : List Cmd) (hc : ps.c
       subst this
       exact hst x hx
 
+/-- A queued dial failed: its failure notification goes to every protocol. -/
+theorem pinv_failed {ps : PS} (h : PInv ps) (hidle : ps.todo = []) (c : Cmd) (rest : List Cmd)
+    (hc : ps.cmds = c :: rest) (g' : G) (hg' : Reach g') (hlog : g'.log = ps.g.log)
+    (hled : ∀ a ∈ ps.g.ledger, ∃ a' ∈ g'.ledger, a'.conn = a.conn ∧ a'.peer = a.peer) :
+    PInv (deliver { ps with cmds := rest, done := ps.done ++ [⟨c, .failed⟩] } g' [failEv ⟨c, .failed⟩] []).1 := by
+  refine pinv_deliver' { ps with cmds := rest, done := ps.done ++ [⟨c, .failed⟩] } hidle h.nodup
+    h.tied h.split
+    (acct_move ps.done _ rest .failed ps.nextReq (by intro k; have := h.acct k; rwa [hc] at this))
+    _ hg' _ _ ?_ ?_ ?_ ?_ ?_
+  · intro a
+    have : outcome g' a = outcome ps.g a := by rw [outcome_eq, outcome_eq, hlog]
+    show preportsOf a (ps.bcast ++ _) = _
+    rw [preportsOf_append, this, h.rep a]
+    simp [preportsOf, preports, failEv]
+  · intro k'
+    show (ps.bcast ++ _).filter _ = ((ps.done ++ _).filter _).map failEv
+    rw [List.filter_append, List.filter_append, List.map_append, h.failedEv k']
+    by_cases hk : c.k = k' <;> simp [List.filter_cons, hk, failEv]
+  · intro d hd x hx
+    rcases List.mem_append.1 hd with hd | hd
+    · obtain ⟨a, ha, h1, h2⟩ := h.started d hd x hx
+      obtain ⟨a', ha', h3, h4⟩ := hled a ha
+      exact ⟨a', ha', h3.trans h1, h4.trans h2⟩
+    · have : d = ⟨c, .failed⟩ := by simpa using hd
+      subst this; cases hx
+  · intro k j a hm
+    exact h.cmdsPeer k j a (by rw [hc]; exact List.mem_cons_of_mem _ hm)
+  · intro d hd
+    rcases List.mem_append.1 hd with hd | hd
+    · exact h.noSilent d hd
+    · have : d = ⟨c, .failed⟩ := by simpa using hd
+      subst this; simp
+
 theorem pinv_afterDialPeer {ps : PS} (h : PInv ps) (hidle : ps.todo = []) (k j : Nat) (p : Peer)
     (rest : List Cmd) (hc : ps.cmds = .dialPeer k j p :: rest) (ch : List Multiaddr) :
     PInv (afterDialPeer ps k j p rest (gstep ps.g (.dial p ch))).1 := by
@@ -351,50 +414,35 @@ theorem pinv_afterDialPeer {ps : PS} (h : PInv ps) (hidle : ps.todo = []) (k j :
   have hled := ledger_persist ps.g (.dial p ch)
   unfold afterDialPeer
   split
-  · exact pinv_done h _ rest hc _ hg' hlog hled .connected (by simp) (by intro x hx; cases hx)
-  · -- failed: `DialFailure{peer, []}` to every protocol
-    refine pinv_deliver' { ps with cmds := rest, done := ps.done ++ [⟨.dialPeer k j p, .failed⟩] } hidle h.nodup
-      h.tied h.split
-      (acct_move ps.done _ rest .failed ps.nextReq (by intro k; have := h.acct k; rwa [hc] at this))
-      _ hg' _ _ ?_ ?_ ?_
-    · intro a
-      have : outcome (gstep ps.g (.dial p ch)).1 a = outcome ps.g a := by rw [outcome_eq, outcome_eq, hlog]
-      show preportsOf a (ps.bcast ++ _) = _
-      rw [preportsOf_append, this, h.rep a]
-      simp [preportsOf, preports]
-    · intro k'
-      show (ps.bcast ++ _).filter _ = ((ps.done ++ _).filter _).map failEv
-      rw [List.filter_append, List.filter_append, List.map_append, h.failedEv k']
-      by_cases hk : k = k' <;> simp [List.filter_cons, hk, failEv, cmdPeer, Cmd.k]
-    · intro d hd x hx
-      rcases List.mem_append.1 hd with hd | hd
-      · obtain ⟨a, ha, h1, h2⟩ := h.started d hd x hx
-        obtain ⟨a', ha', h3, h4⟩ := hled a ha
-        exact ⟨a', ha', h3.trans h1, h4.trans h2⟩
-      · have : d = ⟨.dialPeer k j p, .failed⟩ := by simpa using hd
-        subst this; cases hx
+  · exact pinv_done h _ rest hc _ hg' hlog hled .connected (by simp) (by simp) (by intro x hx; cases hx)
+  · exact pinv_failed h hidle _ rest hc _ hg' hlog hled
   · split
     · rename_i c hs
-      exact pinv_done h _ rest hc _ hg' hlog hled (.started c) (by simp)
+      exact pinv_done h _ rest hc _ hg' hlog hled (.started c) (by simp) (by simp)
         (by intro x hx; cases hx; exact ⟨_, dial_started ps.g p ch _ hs, rfl, rfl⟩)
-    · exact pinv_done h _ rest hc _ hg' hlog hled .joined (by simp) (by intro x hx; cases hx)
+    · exact pinv_done h _ rest hc _ hg' hlog hled .joined (by simp) (by simp) (by intro x hx; cases hx)
 
-theorem pinv_afterDialAddress {ps : PS} (h : PInv ps) (k j : Nat) (a : Multiaddr)
+theorem pinv_afterDialAddress {ps : PS} (h : PInv ps) (hidle : ps.todo = []) (k j : Nat) (a : Multiaddr)
     (rest : List Cmd) (hc : ps.cmds = .dialAddress k j a :: rest) :
-    PInv (afterDialAddress ps k j a rest (gstep ps.g (.dialAddress a))) := by
+    PInv (afterDialAddress ps k j a rest (gstep ps.g (.dialAddress a))).1 := by
   have hg' : Reach (gstep ps.g (.dialAddress a)).1 := Reach.step _ h.reach rfl
   have hlog : (gstep ps.g (.dialAddress a)).1.log = ps.g.log := by
     rw [gstep_log, gstep_dialAddress_events, List.append_nil]
   have hled := ledger_persist ps.g (.dialAddress a)
+  have hsome := h.cmdsPeer k j a (by rw [hc]; exact List.mem_cons_self)
   unfold afterDialAddress
   split
-  · exact pinv_done h _ rest hc _ hg' hlog hled .connected (by simp) (by intro x hx; cases hx)
-  · exact pinv_done h _ rest hc _ hg' hlog hled .silent (by simp) (by intro x hx; cases hx)
+  · exact pinv_done h _ rest hc _ hg' hlog hled .connected (by simp) (by simp) (by intro x hx; cases hx)
+  · split
+    · rename_i p hp
+      have := pinv_failed h hidle (.dialAddress k j a) rest hc _ hg' hlog hled
+      simpa [failEv, cmdPeer, cmdAddrs, Cmd.k, hp] using this
+    · rename_i hn; rw [hn] at hsome; cases hsome
   · split
     · rename_i c hs
-      exact pinv_done h _ rest hc _ hg' hlog hled (.started c) (by simp)
+      exact pinv_done h _ rest hc _ hg' hlog hled (.started c) (by simp) (by simp)
         (by intro x hx; cases hx; exact ⟨_, dialAddress_started ps.g a _ hs, rfl, rfl⟩)
-    · exact pinv_done h _ rest hc _ hg' hlog hled .joined (by simp) (by intro x hx; cases hx)
+    · exact pinv_done h _ rest hc _ hg' hlog hled .joined (by simp) (by simp) (by intro x hx; cases hx)
 
 theorem pinv_runCmd {ps : PS} (h : PInv ps) (ch : List Multiaddr) : PInv (runCmd ps ch).1 := by
   unfold runCmd
@@ -405,7 +453,7 @@ theorem pinv_runCmd {ps : PS} (h : PInv ps) (ch : List Multiaddr) : PInv (runCmd
     split
     · exact h
     · rename_i k j p rest hc; exact pinv_afterDialPeer h hidle' k j p rest hc ch
-    · rename_i k j a rest hc; exact pinv_afterDialAddress h k j a rest hc
+    · rename_i k j a rest hc; exact pinv_afterDialAddress h hidle' k j a rest hc
 
 theorem pinv_resume {ps : PS} (h : PInv ps) : PInv (resume ps).1 := by
   unfold resume
@@ -423,7 +471,7 @@ theorem pinv_resume {ps : PS} (h : PInv ps) : PInv (resume ps).1 := by
         by_cases hij : j = j' <;> simp [pushAt, hij]
         intro h'; exact absurd h'.symm hij
       split <;> rename_i heq <;> rw [heq] at htied hsplit
-      · refine ⟨h.reach, h.nodup, ?_, h.rep, ?_, h.acct, h.failedEv, h.started⟩
+      · refine ⟨h.reach, h.nodup, ?_, h.rep, ?_, h.acct, h.failedEv, h.started, h.cmdsPeer, h.noSilent⟩
         · intro j' hj'
           have := htied j'
           simp only [] at this
@@ -431,7 +479,7 @@ theorem pinv_resume {ps : PS} (h : PInv ps) : PInv (resume ps).1 := by
           rw [← h.tied j' hj', ← hold j']
           simpa using this
         · intro j'; simpa using hsplit j'
-      · refine ⟨h.reach, h.nodup, ?_, h.rep, ?_, h.acct, h.failedEv, h.started⟩
+      · refine ⟨h.reach, h.nodup, ?_, h.rep, ?_, h.acct, h.failedEv, h.started, h.cmdsPeer, h.noSilent⟩
         · intro j' hj'
           have := htied j'
           show _ ++ pend (_ :: _) j' = _
@@ -442,7 +490,7 @@ theorem pinv_resume {ps : PS} (h : PInv ps) : PInv (resume ps).1 := by
 
 theorem pinv_pfill {ps : PS} (h : PInv ps) (j : Nat) : PInv (pfill ps j).1 := by
   unfold pfill
-  refine ⟨h.reach, h.nodup, h.tied, h.rep, ?_, h.acct, h.failedEv, h.started⟩
+  refine ⟨h.reach, h.nodup, h.tied, h.rep, ?_, h.acct, h.failedEv, h.started, h.cmdsPeer, h.noSilent⟩
   intro i
   show ps.sent i = ps.recv i ++ _
   by_cases hij : i = j
@@ -456,7 +504,7 @@ theorem pinv_pfill {ps : PS} (h : PInv ps) (j : Nat) : PInv (pfill ps j).1 := by
 
 theorem pinv_pdrain {ps : PS} (h : PInv ps) (j : Nat) : PInv (pdrain ps j).1 := by
   unfold pdrain
-  refine ⟨h.reach, h.nodup, h.tied, h.rep, ?_, h.acct, h.failedEv, h.started⟩
+  refine ⟨h.reach, h.nodup, h.tied, h.rep, ?_, h.acct, h.failedEv, h.started, h.cmdsPeer, h.noSilent⟩
   intro i
   show ps.sent i = _
   by_cases hij : i = j
